@@ -11,7 +11,8 @@ fn type_shape(t: &Type) -> String {
         TypeKind::Array => format!("A({})", t.generic_types.iter().map(type_shape).collect::<Vec<_>>().join(",")),
         TypeKind::List => if t.generic_types.is_empty() { "L".into() } else { format!("L({})", t.generic_types.iter().map(type_shape).collect::<Vec<_>>().join(",")) },
         TypeKind::Map => if t.generic_types.is_empty() { "M".into() } else { format!("M({})", t.generic_types.iter().map(type_shape).collect::<Vec<_>>().join(",")) },
-        _ => { if !t.generic_types.is_empty() { format!("{}!children", t.name) } else { t.name.clone() } }
+        // the resolved kind is part of a sibling: it must be what it is without the malformed member
+        _ => { if !t.generic_types.is_empty() { format!("{}!children", t.name) } else { format!("{}:{:?}", t.name, t.kind) } }
     }
 }
 fn ann_shape(a: &[Annotation]) -> String {
@@ -62,10 +63,13 @@ fn parse(src: &str) -> (Option<String>, Vec<(usize, usize, String)>) {
 #[test]
 fn c14_all() {
     // (header, siblings, terminator of a member, closing)
-    let bodies: [(&str, [&str; 3], &str, &str); 3] = [
+    let bodies: [(&str, [&str; 3], &str, &str); 5] = [
         ("package p; interface I {", ["void a(in int x) = 1;", "const int K = 1;", "String b(out int[] y, inout List<String> z) = 7;"], ";", "}"),
         ("package p; parcelable P {", ["int a;", "const String S = \"s\";", "List<String> b = 3;"], ";", "}"),
         ("package p; enum E {", ["A = 1,", "B,", "C = \"c\","], ",", "}"),
+        // what validation adds to a sibling (resolved kinds, oneway inherited from the interface) is part of the sibling
+        ("package p; parcelable Fwd; oneway interface J {", ["void a(in IBinder x, in Fwd f) = 1;", "const int K = 1;", "void b(in ParcelFileDescriptor y, in List<String> z) = 7;"], ";", "}"),
+        ("package p; parcelable Fwd; parcelable Q {", ["IBinder a;", "const String S = \"s\";", "Fwd[] b;"], ";", "}"),
     ];
     // malformed members (without their terminator): none contains `;` `{` `}` (nor `,` - used for all three body kinds)
     let garbage = ["int", "void f(", "= 3", "in out", "String String x", "x y z", "void f(int a", "const int", "123", "\"str\"", "List<", "-", "f()", "oneway", "void f(int)) = 2", "int 5x", "\u{e9}", "@", "x = = 1", ")", "void void", "import a.b", "package q", "void interface foo()", "parcelable Inner", "enum", "interface I", "oneway interface", "x enum y", "@Marker (", "@Marker ( key =", "@A ( x", "@A ( k = 1", "@A @B ("];
@@ -122,6 +126,6 @@ fn c14_all() {
     for w in out.iter().filter(|w| !recorded(w)).take(60) { println!("{}", w.chars().take(700).collect::<String>()); }
     for w in out.iter().filter(|w| w.contains("(unlexable character)")).take(8) { println!("{}", w.chars().take(700).collect::<String>()); }
     for w in out.iter().filter(|w| w.contains("(unclosed annotation parameters in an enum body)")).take(8) { println!("{}", w.chars().take(700).collect::<String>()); }
-    println!("ORACLE-STATS evaluations={} distinct={} rule=one body with one malformed member each: 3 body kinds x 2 layouts x 34 malformed members x 4 positions among 3 well-formed siblings; tree present, siblings' shape unchanged, at least one Error, every Error inside the malformed member's extent (witness lines: {})", evals, evals, total);
+    println!("ORACLE-STATS evaluations={} distinct={} rule=one body with one malformed member each: 5 bodies (3 kinds; two whose siblings need resolution / oneway propagation) x 2 layouts x 34 malformed members x 4 positions among 3 well-formed siblings; tree present, siblings' shape unchanged, at least one Error, every Error inside the malformed member's extent (witness lines: {})", evals, evals, total);
     assert!(out.is_empty(), "witness found");
 }
